@@ -30,7 +30,7 @@ Proof. unfold guard, two62, d_t0, d_tmax. cbn. lia. Qed.
 Lemma d_fits : fits d_rule d_K d_calls.
 Proof. unfold fits, d_K, d_calls. split; [nodup|]. split; [cbn; lia|]. allcalls. Qed.
 Lemma d_calls_ok : calls_ok d_t0 d_tmax d_calls.
-Proof. unfold d_calls, d_t0, d_tmax, batch_max. cbn. lia. Qed.
+Proof. unfold d_calls, d_t0, d_tmax, batch_max. cbn [calls_ok]. unfold batch_max. lia. Qed.
 Lemma d_run : snd (ctrl_run d_rule metric0 d_calls) =
   [DPass; DPass; DPass; DPass; DPass; DBlock None; DBlock None; DBlock None].
 Proof. vm_compute. reflexivity. Qed.
@@ -42,7 +42,7 @@ Definition d_idle : Z * Z * Z := (d_t0 + 1401, 5, 2).
 Lemma d_fits_idle : fits d_rule d_K (d_calls ++ [d_idle]).
 Proof. unfold fits, d_K, d_calls, d_idle. split; [nodup|]. split; [cbn; lia|]. cbn [app]. allcalls. Qed.
 Lemma d_calls_ok_idle : calls_ok d_t0 d_tmax (d_calls ++ [d_idle]).
-Proof. unfold d_calls, d_idle, d_t0, d_tmax, batch_max. cbn. lia. Qed.
+Proof. unfold d_calls, d_idle, d_t0, d_tmax, batch_max. cbn [calls_ok app]. unfold batch_max. lia. Qed.
 Lemma d_idle_gap : r_dur d_rule * 1000 < d_t0 + 1401 - last_time d_t0 (proj 5 d_calls).
 Proof. unfold d_t0. cbn. lia. Qed.
 
@@ -61,7 +61,7 @@ Qed.
 Lemma t_fits : fits t_rule d_K t_calls.
 Proof. unfold fits, d_K, t_calls. split; [nodup|]. split; [cbn; lia|]. allcalls. Qed.
 Lemma t_calls_ok : calls_ok d_t0 d_tmax t_calls.
-Proof. unfold t_calls, d_t0, d_tmax, batch_max. cbn. lia. Qed.
+Proof. unfold t_calls, d_t0, d_tmax, batch_max. cbn [calls_ok]. unfold batch_max. lia. Qed.
 Lemma t_run : snd (thr_run t_rule metric0 t_calls) =
   [DPass; DPass; DWait 250000000; DWait 500000000; DBlock None; DWait 490000000; DPass].
 Proof. vm_compute. reflexivity. Qed.
@@ -82,7 +82,7 @@ Lemma f2_witness :
 Proof.
   split.
   { unfold fits, f2_calls, f2_idle. split; [nodup|]. split; [vm_compute; discriminate|]. cbn [app]. allcalls. }
-  split; [unfold f2_calls, f2_idle, d_t0, d_tmax, batch_max; cbn; lia|].
+  split; [unfold f2_calls, f2_idle, d_t0, d_tmax, batch_max; cbn [calls_ok app]; unfold batch_max; lia|].
   split; [cbn; lia|]. split; [cbn; lia|]. split; [unfold d_t0; cbn; lia|].
   vm_compute. reflexivity.
 Qed.
@@ -95,7 +95,7 @@ Lemma f1_hyps :
 Proof.
   split; [intros k _; unfold tguard, batch_max, two53, two40, two61; cbn; lia|].
   split; [unfold fits, f1_calls; split; [nodup|]; split; [vm_compute; discriminate|]; allcalls|].
-  unfold f1_calls, batch_max. cbn. lia.
+  unfold f1_calls, batch_max. cbn [calls_ok]. unfold batch_max. lia.
 Qed.
 
 (* ---- the public-API model reaches states with stored tokens ------------------------------------- *)
